@@ -10,9 +10,13 @@ impl Builder {
     pub fn build(self) -> (r: ThreadPool) { unimplemented!() }
 }
 impl ThreadPool {
-    /// A-pool: returns once every queued job has run
+    /// A-pool: returns once every queued job has run (and its captured handle has been dropped)
     #[verifier::external_body]
-    pub fn join(&self) { unimplemented!() }
+    pub fn join(&self, Tracked(w): Tracked<&mut World>)
+        ensures fr_chan(*old(w), *final(w)), final(w).faults == old(w).faults,
+            final(w).reported == old(w).reported && final(w).announced == old(w).announced && final(w).errors_sent == old(w).errors_sent,
+            final(w).trace == old(w).trace.push(Event::PoolJoin),
+    { unimplemented!() }
 }
 impl Config {
     #[verifier::external_body]
